@@ -206,6 +206,12 @@ func debugMain(dump, listPkg string, morph bool, overlay map[string][]byte) {
 			if n == dump || strings.HasSuffix(n, dump) {
 				fmt.Printf("=== %s (%s)\n", n, w.rel(f.Pos()))
 				dumpFn(w, f)
+				for _, e := range effectsOf(f) {
+					if strings.HasPrefix(e.Str, "return") {
+						continue
+					}
+					fmt.Printf("  EFF %s b%d %s   {%s}\n", w.rel(instrPos(e.Ins)), e.Ins.Block().Index, e.Str, strings.Join(e.Conds(), " ; "))
+				}
 				for _, o := range returnOutcomes(f) {
 					fmt.Printf("  RET %s sentinels=%v success?=%v conds={%s}\n", w.rel(instrPos(o.Ret)), o.Sentinels, o.isPotentialSuccess(), strings.Join(o.Conds, " ; "))
 				}
